@@ -73,7 +73,7 @@ func zzPrecommit19(t *zzTree19, signer, blk int, valid bool) grandpa.SignedPreco
 // authorities.
 func ZZ_C19_justification() {
 	t := zzNewTree19()
-	n := vrt.Param("auths", 2)
+	n := vrt.Range("n_auth", vrt.Param("auths", 2), vrt.Param("maxauths", 3))
 	var auths primitives.AuthorityList
 	for i := 0; i < n; i++ {
 		auths = append(auths, primitives.AuthorityIDWeight{AuthorityID: primitives.AuthorityID(vrt.Ed25519Pub(i)), AuthorityWeight: 1})
